@@ -179,6 +179,34 @@ def _multistream_ragged(names, sizes, rows, cuts):
     return [[int(s) for s in t.position.tolist()] for t in ms.hits]
 
 
+_LINK = []
+
+
+def _multistream_mate(names, sizes, rows, cuts):
+    """a table with two contig columns, streamed and grouped on the SECOND one (set_grouping_attribute): each contig gets the
+    rows whose mate contig it is; the first contig column (constant) plays no part."""
+    from bionumpy.streams.multistream import MultiStream
+    from bionumpy.streams import NpDataclassStream
+    if not _LINK:
+        from bionumpy.bnpdataclass import bnpdataclass
+        from bionumpy.datatypes import SequenceID
+
+        @bnpdataclass
+        class Link:
+            chromosome: SequenceID
+            position: int
+            mate_chromosome: SequenceID
+            mate_position: int
+        _LINK.append(Link)
+    Link = _LINK[0]
+    b = [0] + cuts + [len(rows)]
+    chunks = [Link([names[0]] * (y - x), list(range(x, y)), [r[0] for r in rows[x:y]], [r[1] for r in rows[x:y]])
+              for x, y in zip(b[:-1], b[1:])]
+    ms = MultiStream(dict(zip(names, sizes)), links=NpDataclassStream(iter(chunks), dataclass=Link))
+    ms.links.set_grouping_attribute("mate_chromosome")
+    return [[int(s) for s in t.mate_position.tolist()] for t in ms.links]
+
+
 def _iter_chromosomes_ragged(g, rows, cuts):
     ctx = g.get_genome_context()
     return [[int(s) for s in t.position.tolist()] for t in ctx.iter_chromosomes(_ragged_stream(rows, cuts), _hit_class())]
@@ -336,6 +364,8 @@ def check_vector(v):
             judge("contingency_table", cuts, outcome(_jaccard, genome, [size] * len(genome), lambda cls: _stream(rows, cuts, cls)))
             n += 1
             judge("MultiStream[ragged]", cuts, outcome(_multistream_ragged, genome, [size] * len(genome), rows, cuts))
+            n += 1
+            judge("MultiStream[grouped on a second contig column]", cuts, outcome(_multistream_mate, genome, [size] * len(genome), rows, cuts))
             if all(r[0] in genome for r in rows):
                 n += 1
                 judge("MultiStream[genome-encoded]", cuts, outcome(_multistream_encoded, bnp.Genome.from_dict({name: size for name in genome}), genome, [size] * len(genome), rows, cuts))
